@@ -14,6 +14,7 @@ M = [
  ("c01-trim-name", "C01", "break", "message.go", "m.headers = append(m.headers, &Header{name: name, value: value})", "m.headers = append(m.headers, &Header{name: strings.ToLower(name), value: value})", "lower-case header names in AddHeader"),
  ("c01-cl-plus-one", "C01", "break", "message.go", 'k, _ = fmt.Fprintf(writer, "Content-Length: %d\\r\\n\\r\\n", len(m.body))', 'k, _ = fmt.Fprintf(writer, "Content-Length: %d\\r\\n\\r\\n", len(m.body)+1)', "emit len(body)+1"),
  ("c01-drop-empty-value", "C01", "break", "message.go", "\t\tif m.isSameHeader(header.name, \"Content-Length\") {\n\t\t\tcontinue\n\t\t}", "\t\tif m.isSameHeader(header.name, \"Content-Length\") || header.value == \"\" {\n\t\t\tcontinue\n\t\t}", "drop header fields with an empty value"),
+ ("c01-first-bracket", "C01", "break", "name_addr.go", "\tpos1 := indexOfLAQuot(nameAddr)", "\tpos1 := strings.IndexByte(nameAddr, '<')", "addr-spec starts at the first '<' even inside the quoted display name (repair 1a14a96 partly undone)"),
  ("c01-preserve-builder", "C01", "preserve", "message.go", "\tbuf := bytes.NewBuffer(make([]byte, 0))\n\t_, err := m.Write(buf)\n\tif err != nil {\n\t\treturn nil, err\n\t}\n\n\treturn buf.Bytes(), nil", "\tvar buf bytes.Buffer\n\tbuf.Grow(512)\n\tif _, err := m.Write(&buf); err != nil {\n\t\treturn nil, err\n\t}\n\treturn buf.Bytes(), nil", "Bytes() through a pre-grown buffer"),
  # ---- C02
  ("c02-sentby-over-received", "C02", "break", "proxy.go", "\thost, err = viaParam.GetReceived()\n\tif err == nil {", "\thost, err = viaParam.GetReceived()\n\tif err == nil && false {", "prefer sent-by over received"),
@@ -62,7 +63,8 @@ M = [
  ("c11-body-read-once", "C11", "break", "message.go", "\tif _, err = io.CopyN(body, reader, int64(contentLength)); err != nil {\n\t\treturn nil, err\n\t}\n\tmsg.body = body.Bytes()", "\ttmp := make([]byte, contentLength)\n\tk, err := reader.Read(tmp)\n\tif err != nil && contentLength > 0 {\n\t\treturn nil, err\n\t}\n\tbody.Write(tmp[:k])\n\tmsg.body = body.Bytes()", "body taken with a single Read"),
  # ---- C12
  ("c12-key-without-transaction", "C12", "break", "transport.go", '\tif protocol == "tcp" && transId != "" {', '\tif protocol == "tcp" && transId != "" && false {', "connection registered per address only"),
- ("c12-remove-on-1xx", "C12", "break", "proxy.go", "\t\tif msg.IsFinalResponse() {\n\t\t\tp.clientTransMgr.RemoveTransport(transport, host, port, transId)\n\t\t}", "\t\tif msg.IsResponse() {\n\t\t\tp.clientTransMgr.RemoveTransport(transport, host, port, transId)\n\t\t}", "registration dropped on the first (provisional) response"),
+ ("c12-remove-on-1xx", "C12", "break", "proxy.go", "\t\tif msg.IsFinalResponse() {\n\t\t\tp.clientTransMgr.RemoveTransport(transport, ip, port, transId)\n\t\t}", "\t\tif msg.IsResponse() {\n\t\t\tp.clientTransMgr.RemoveTransport(transport, ip, port, transId)\n\t\t}", "registration dropped on the first (provisional) response"),
+ ("c12-bind-under-name", "C12", "break", "proxy.go", "\t\t\tif ip, err := p.resolver.GetIp(host); err == nil {\n\t\t\t\thost = ip\n\t\t\t}\n\t\t\ttransId, err := msg.GetClientTransaction()", "\t\t\ttransId, err := msg.GetClientTransaction()", "connection bound under the Via host as written (repair 361a329 undone)"),
  # ---- C13
  ("c13-ignore-port", "C13", "break", "proxy.go", "\tif sipUri.GetPort() == myPort && p.isSameAddress(sipUri.Host, myAddr) {", "\tif myPort >= 0 && p.isSameAddress(sipUri.Host, myAddr) {", "own entry consumed regardless of port"),
  ("c13-no-alias", "C13", "break", "proxy.go", "\tif sipUri.GetPort() == myPort && p.isSameAddress(sipUri.Host, myAddr) {", "\tif sipUri.GetPort() == myPort && sipUri.Host == myAddr {", "aliases not resolved"),
